@@ -42,6 +42,8 @@ type Case struct {
 	After    int      `json:"after"` // re-read the caller's data after the call
 	Cert     int      `json:"cert"`  // attach an optimality certificate for the layering (C10)
 	Bad      int      `json:"bad"`
+	Reps     int      `json:"reps"`     // extra in-process repetitions; only those that differ from the first run (and the last one) are logged
+	Stages   int      `json:"stages"`   // emit one Stage record per component and pipeline stage (hook H1)
 	BudgetMs int      `json:"budgetms"` // wall-clock budget of this case (0: the driver's default)   // 1: malformed edge (3 strings) appended, 2: empty edge list (C18 panics)
 }
 
@@ -247,6 +249,7 @@ func cmdRun(args []string) {
 	sc, w, done := cm.open()
 	defer done()
 	installHooks()
+	installStageHook()
 
 	idx := 0
 	for sc.Scan() {
@@ -282,6 +285,14 @@ func runCase(c *Case, w writer) {
 	w.Flush() // the culprit of a process abort is the last Call without completion
 
 	takeNSReports()
+	stageOn = c.Stages == 1
+	if stageOn {
+		stageSnaps, stageComp, stageScale = stageSnaps[:0], 0, c.Sc
+		stageIndex = make(map[string]int, c.N)
+		for i := 1; i <= c.N; i++ {
+			stageIndex[c.name(i)] = i
+		}
+	}
 	if c.BudgetMs > 0 {
 		budgetNs.Store(int64(c.BudgetMs) * int64(time.Millisecond) * budgetScale)
 	} else {
@@ -295,8 +306,12 @@ func runCase(c *Case, w writer) {
 	}
 	res := invoke(source, opts)
 	curCase.Store(-1)
+	stageOn = false
 
 	enc.b = enc.b[:0]
+	if c.Stages == 1 {
+		enc.stages(c)
+	}
 	if res.panic != nil {
 		enc.panicRec(c, fmt.Sprint(res.panic), res.where)
 	} else {
@@ -307,6 +322,59 @@ func runCase(c *Case, w writer) {
 		harnessErr("case %d: %s", c.Case, enc.rangeErr)
 	}
 	w.Write(enc.b)
+	if c.Reps > 0 && res.panic == nil {
+		repeat(c, w, comparable(enc.b))
+	}
+}
+
+// comparable strips the timing field, which legitimately differs between runs
+func comparable(line []byte) string {
+	s := string(line)
+	for i := len(s) - 1; i >= 0; i-- {
+		if s[i] == ',' && i+5 < len(s) && s[i:i+6] == `,"us":` {
+			return s[:i]
+		}
+	}
+	return s
+}
+
+// repeat runs the case c.Reps more times in this process (Go randomises map iteration per range statement, so
+// repeated runs explore different iteration orders). Logging every repetition would only make the trace longer:
+// a repetition is written to the trace - as a rel "same" member of the case's group, to be judged by the
+// specification - if its result differs from the first run's (at most three of them) or if it is the last one.
+func repeat(c *Case, w writer, first string) {
+	logged := 0
+	for k := 1; k <= c.Reps; k++ {
+		cc := *c
+		cc.Case = c.Case + (50+k)*10000000
+		if cc.Rel == "ref" {
+			cc.Rel = "same"
+		}
+		rec := &recorder{}
+		src, sizes, opts := buildOptions(&cc, rec)
+		takeNSReports()
+		curCase.Store(int64(c.Case))
+		caseStart.Store(time.Now().UnixNano())
+		res := invoke(src, opts)
+		curCase.Store(-1)
+		var e enc
+		if res.panic != nil {
+			e.panicRec(&cc, fmt.Sprint(res.panic), res.where)
+		} else {
+			e.ns = takeNSReports()
+			e.ret(&cc, &res, rec, src, sizes)
+		}
+		differs := res.panic != nil || comparable(e.b) != first
+		if (differs && logged < 3) || k == c.Reps {
+			if differs {
+				logged++
+			}
+			var ce enc
+			ce.call(&cc)
+			w.Write(ce.b)
+			w.Write(e.b)
+		}
+	}
 }
 
 type writer interface {
